@@ -1,4 +1,5 @@
 """C32 Characteristics interpolate through their support points — E1 full enumeration of small data sets."""
+import os
 import pickle
 
 import numpy as np
@@ -281,6 +282,11 @@ def explore(tier, seed):
     import pandapower  # noqa: F401  (import in the parent before forking)
     _empty_net()
     cases = gen_cases(tier)
+    stride = int(os.environ.get("VERIF_CASE_STRIDE", "1") or 1)   # screening aid for seeded-mutation runs only: every n-th case
+    if stride > 1:
+        cases = cases[::stride]
+        rep.exhaustive = False
+        rep.extra["case_stride"] = stride
     rep.rule = ("E1 full product: class/interpolator variant x every strictly increasing x subset of size 2-5 of %s (Log: %s) x every "
                 "distinct ordered y selection from the multiset %s (Log: %s); one case = (variant, x), evaluated for every y. A data set "
                 "is distinct+non-trivial when the object could be built and evaluated (scipy's too-few-points refusal is counted "
